@@ -118,6 +118,10 @@ func (n *Nodis) HIncrBy(key string, field string, value int64) (int64, error) {
 		meta := tx.writeKey(key, n.newHash)
 		v, err = meta.value.(*hash.HashMap).HIncrBy(field, value)
 		n.signalModifiedKey(key, meta)
+		if err != nil {
+			// nothing changed: a record would only make the replica fail the same way
+			return nil
+		}
 		n.notify(func() []patch.Op {
 			return []patch.Op{{Type: patch.OpTypeHIncrBy, Data: &patch.OpHIncrBy{Key: key, Field: field, IncrInt: value}}}
 		})
@@ -133,6 +137,10 @@ func (n *Nodis) HIncrByFloat(key string, field string, value float64) (float64, 
 		meta := tx.writeKey(key, n.newHash)
 		v, err = meta.value.(*hash.HashMap).HIncrByFloat(field, value)
 		n.signalModifiedKey(key, meta)
+		if err != nil {
+			// nothing changed: a record would only make the replica fail the same way
+			return nil
+		}
 		n.notify(func() []patch.Op {
 			return []patch.Op{{Type: patch.OpTypeHIncrByFloat, Data: &patch.OpHIncrByFloat{Key: key, Field: field, IncrFloat: value}}}
 		})
